@@ -267,6 +267,81 @@ def gen_world(rng, n=None):
             "via_all": rng.random() < 0.3, "modes": modes, "clean": clean}
 
 
+FLOAT_SHARES = [0.55, 0.6, 1 / 3, 0.599999, 0.600001, 2 / 3, 0.45, 0.5000001, 0.3333, 0.7, 0.51]
+
+
+def awkward_n(rng, lo, hi):
+    """a length that is no multiple of 1000, of 64, nor a power of two, and not near a multiple of 1000"""
+    while True:
+        n = rng.randint(lo, hi)
+        if 37 <= n % 1000 <= 963 and n % 64 and n & (n - 1):
+            return n
+
+
+def gen_sized_world(rng, n, scf, lead=None, tail=0, float_share=True):
+    """One contest over n cards built from a small palette of shared card dicts (cheap for very long lists).
+    plurality: winner's lead over the runner-up is `lead` votes (any sign; None = random, a few percent);
+    super-majority: the winner has floor(f * valid) + d valid votes, d in {1, 0, 2, -1}.
+    The last `tail` cards favour the loser, so the vote split changes along the list."""
+    cands = rng.sample(LISTED, rng.randint(2, 4))
+    win, los = cands[0], cands[1]
+    f = None
+    if scf == "SUPERMAJORITY":
+        x = rng.choice(FLOAT_SHARES) if float_share else float(rng.choice(SHARES))
+        f = F(*float(x).as_integer_ratio())
+    spec = {"id": "c1", "scf": scf, "cands": cands, "k": 1, "nwin": 1, "f": f, "polling": rng.random() < 0.5,
+            "style": rng.random() < 0.6, "enforce": rng.random() < 0.6, "winners": [win]}
+    p_exp = rng.choice([0, 0.5])
+
+    def ballot(sel):
+        return {"votes": {"c1": encode(rng, cands, sel, p_exp, {})}, "phantom": False}
+    pal = {x: [ballot({x}) for _ in range(2)] for x in cands}
+    blank, nocon = ballot(set()), {"votes": {}, "phantom": False}
+    over = ballot({win, los})
+    n_nc = rng.choice([0, n // 20, n // 7]) if n > 2 else 0
+    n_blank = rng.choice([0, n // 30, n // 9]) if n > 2 else 0
+    n_over = rng.choice([0, n // 40]) if (scf == "SUPERMAJORITY" and spec["enforce"]) else 0
+    m = max(1, n - n_nc - n_blank - n_over)
+    cnt = {x: 0 for x in cands}
+    others = cands[2:]
+    if scf == "SUPERMAJORITY":
+        wv = max(0, min(m, int(f * m) + rng.choice([1, 1, 0, 2, -1])))
+        cnt[win] = wv
+        rest = m - wv
+        for x in others:
+            cnt[x] = rng.randint(0, rest // 3)
+            rest -= cnt[x]
+        cnt[los] = rest
+    else:
+        o = rng.randint(0, m // 10) if others else 0
+        if lead is None:
+            lead = rng.randint(-max(1, m // 12), max(1, m // 12))
+        if (m - o - lead) % 2:
+            if others:
+                o += 1 if o < m else -1
+            else:
+                m -= 1
+        r = m - o
+        lead = max(-r, min(r, lead))
+        if (r - lead) % 2:
+            lead += 1 if lead < r else -1
+        cnt[win], cnt[los] = (r + lead) // 2, (r - lead) // 2
+        for x in others[:-1]:
+            cnt[x] = rng.randint(0, o)
+            o -= cnt[x]
+        if others:
+            cnt[others[-1]] = o
+    tail = min(tail, cnt[los])
+    head = [blank] * n_blank + [nocon] * n_nc + [over] * n_over
+    for x in cands:
+        k = cnt[x] - (tail if x == los else 0)
+        head += [pal[x][0]] * (k // 2) + [pal[x][1]] * (k - k // 2)
+    rng.shuffle(head)
+    cards = head + [pal[los][0]] * tail
+    return {"specs": [spec], "cards": cards, "shared": False, "twice": False, "via_all": rng.random() < 0.3,
+            "modes": ["sized"], "clean": True, "lead": lead}
+
+
 def exhaustive_worlds(rng):
     """all multisets of <= 4 cards over the 9 card types (contest absent, or any subset of 3 candidates marked)"""
     cands = ["A", "B", "C"]
@@ -505,100 +580,140 @@ def is_gt_half(m):
     return m is not None and not math.isnan(m) and m > 0.5
 
 
+def compact_cards(cards):
+    """json-able form of a card list; long lists (built from a few shared card dicts) as palette + index sequence"""
+    if len(cards) <= 300:
+        return C.jsonable(cards)
+    pal, idx, seq = [], {}, []
+    for c in cards:
+        k = id(c)
+        if k not in idx:
+            idx[k] = len(pal)
+            pal.append(c)
+        seq.append(idx[k])
+    return {"palette": C.jsonable(pal), "sequence": seq}
+
+
+def exact_mean(vals, keep):
+    """exact mean (Fraction) of the doubles vals[i] with keep[i]; None if there are none"""
+    cnt = {}
+    for v, k in zip(vals, keep):
+        if k:
+            cnt[v] = cnt.get(v, 0) + 1
+    n = sum(cnt.values())
+    return None if n == 0 else sum(F(*v.as_integer_ratio()) * k for v, k in cnt.items()) / n
+
+
 def oracle_case(acase, fact, viol):
-    """acase: the a_case of the contest (implementation outputs); fact: tally-margin facts or None"""
+    """The property on the implementation's outputs for one contest over one card list (any length).
+    acase: the a_case (assort values, means, stored margins); fact: tally-margin facts or None"""
     s, cards = acase["spec"], acase["cards"]
     con, cands = s["id"], s["cands"]
+    lst = set(cands)
     runs = 0
-    inp = {"contest": {k: C.jsonable(v) for k, v in s.items()}, "cards": C.jsonable(cards)}
 
     def flag(what, observed, sig):
-        viol.append({"what": what, "input": inp, "observed": C.jsonable(observed), "signature": f"C02:{sig}"})
+        viol.append({"what": what, "input": {"contest": {k: C.jsonable(v) for k, v in s.items()}, "cards": compact_cards(cards)},
+                     "observed": C.jsonable(observed), "signature": f"C02:{sig}"})
 
+    # per-card facts read from the raw dicts (cached per card object: long lists share a few dicts)
+    cache = {}
+
+    def info(c):
+        r = cache.get(id(c))
+        if r is None:
+            m = raw_marks(c, con)
+            has = m is not None
+            m = m or set()
+            r = cache[id(c)] = (has, m, len(m & lst), len({x for x in m if x}))
+        return r
+    infos = [info(c) for c in cards]
+    has = [r[0] for r in infos]
+    everyone = [True] * len(cards)
     # range
     for o in acase["obs"]:
         runs += 1
         for i, v in enumerate(o["vals"]):
             if v is None:
-                flag(f"{o['kind'][0]} assorter raises on a ballot ({'lacking the contest' if con not in cards[i]['votes'] else 'containing the contest'})",
+                flag(f"{o['kind'][0]} assorter raises on a ballot ({'containing' if has[i] else 'lacking'} the contest)",
                      {"card": cards[i], "exc": o["exc"][:1]}, f"raise:{o['kind'][0]}")
                 break
             if not (0 <= v <= o["ub"]):
                 flag(f"{o['kind'][0]} assorter value outside [0, upper_bound]", {"card": cards[i], "value": v, "ub": o["ub"]},
                      f"range:{o['kind'][0]}")
                 break
-    vt = {x: raw_votes(cards, con, x) for x in set(cands)}
-    n_with = sum(1 for c in cards if con in c["votes"])
-    for style, key, n in ((True, "mean_s", n_with), (False, "mean_a", len(cards))):
-        if n == 0:
+    vt = {x: sum(1 for r in infos if x in r[1]) for x in lst}
+    valid = sum(1 for r in infos if r[2] == 1)
+    complete = [o for o in acase["obs"] if all(v is not None for v in o["vals"])]
+    for style, key, keep in ((True, "mean_s", has), (False, "mean_a", everyone)):
+        if not any(keep):
             continue
+        # each mean is the mean of the assorter's own values over the cards the style rule selects
+        em = {}
+        for o in complete:
+            runs += 1
+            em[id(o)] = exact_mean(o["vals"], keep)
+            if o[key] is None or math.isnan(o[key]) or abs(float(em[id(o)]) - o[key]) > TOL:
+                flag("Assorter.mean differs from the mean of the assorter values over the cards it should use",
+                     {"kind": o["kind"], "mean": o[key], "mean_of_values": float(em[id(o)]), "use_style": style,
+                      "cards": len(cards)}, "mean")
         pl = [o for o in acase["obs"] if o["kind"][0] == "pl"]
-        if pl and all(all(v is not None for v in o["vals"]) for o in pl):
+        if pl and all(id(o) in em for o in pl):
             runs += 1
             lhs = all(is_gt_half(o[key]) for o in pl)
             rhs = all(vt[o["kind"][1]] > vt[o["kind"][2]] for o in pl)
             if lhs != rhs:
                 flag("plurality/approval: all assorter means > 1/2 is not equivalent to every winner beating every loser",
                      {"means": [(o["kind"], o[key]) for o in pl], "votes": vt, "use_style": style}, "pl-iff")
-            # each mean is the mean of the assorter's own values over the filtered cards
-            for o in pl:
-                sel = [F(*v.as_integer_ratio()) for v, c in zip(o["vals"], cards) if (not style or con in c["votes"])]
-                if o[key] is None or abs(float(sum(sel) / len(sel)) - o[key]) > TOL:
-                    flag("Assorter.mean differs from the mean of the assorter values over the cards it should use",
-                         {"kind": o["kind"], "mean": o[key], "use_style": style}, "mean")
-        for o in acase["obs"]:
-            if o["kind"][0] != "sm" or any(v is None for v in o["vals"]):
+        for o in complete:
+            if o["kind"][0] != "sm" or o[key] is None or math.isnan(o[key]):
                 continue
             runs += 1
             win = o["kind"][2]
-            lst = set(cands)
-            valid = sum(1 for c in cards if len((raw_marks(c, con) or set()) & lst) == 1)
-            wv = sum(1 for c in cards if (raw_marks(c, con) or set()) & lst == {win})
-            sel = [F(*v.as_integer_ratio()) for v, c in zip(o["vals"], cards) if (not style or con in c["votes"])]
-            if o[key] is None or abs(float(sum(sel) / len(sel)) - o[key]) > TOL:
-                flag("Assorter.mean differs from the mean of the assorter values over the cards it should use",
-                     {"kind": o["kind"], "mean": o[key], "use_style": style}, "mean")
-                continue
+            wv = sum(1 for r in infos if r[2] == 1 and win in r[1])
             gap = F(wv) - s["f"] * valid          # the intended share (exact rational)
-            if gap == 0:
-                if abs(o[key] - 0.5) > TOL:        # at the exact threshold the mean is 1/2 (up to rounding of 1/(2f))
+            if abs(gap) <= F(max(valid, 1), 10 ** 9):
+                # at (or within rounding of) the threshold the mean is 1/2 up to the rounding of 1/(2f)
+                if abs(o[key] - 0.5) > TOL:
                     flag("super-majority: winner exactly at the threshold but the assorter mean is not 1/2",
                          {"mean": o[key], "winner_votes": wv, "valid": valid, "share": s["f"]}, "sm-iff")
             elif is_gt_half(o[key]) != (gap > 0):
                 flag("super-majority: assorter mean > 1/2 is not equivalent to winner's votes > share * valid votes",
                      {"mean": o[key], "winner_votes": wv, "valid": valid, "share": s["f"], "use_style": style}, "sm-iff")
+    # the margin stored by set_margin_from_cvrs is 2 * mean - 1 of the assorter's own values (no rounding to a tie)
+    for o in complete:
+        keep = has if o["style"] else everyone
+        if not any(keep):
+            continue
+        runs += 1
+        want = 2 * exact_mean(o["vals"], keep) - 1
+        if o["margin"] is None or math.isnan(o["margin"]) or abs(o["margin"] - float(want)) > 1e-12:
+            flag("set_margin_from_cvrs: the stored margin is not 2 * (mean of the assorter values) - 1",
+                 {"kind": o["kind"], "margin": o["margin"], "two_mean_minus_one": float(want), "cards": len(cards),
+                  "use_style": o["style"]}, "cvr-margin")
     # margin from the tally = 2 * mean - 1 over the same cards
     if fact and fact["n_f"] > 0 and fact["margins"]:
         enforce, nw = fact["enforce"], s["k"]
         key = "mean_s" if s["style"] else "mean_a"
-
-        def n_votes(c):
-            return len({x for x in (raw_marks(c, con) or set()) if x})
-
-        def tallied(c):
-            return con in c["votes"] and ((not enforce) or n_votes(c) <= nw)
+        tallied = [r[0] and ((not enforce) or r[3] <= nw) for r in infos]
         for (kind, mg), o in zip(fact["margins"], acase["obs"]):
             if mg is None or o[key] is None or math.isnan(o[key]):
                 continue
             if kind[0] == "pl":
-                ok = all(tallied(c) for c in cards if con in c["votes"]) and kind[1] and kind[2]
+                ok = all(t for t, r in zip(tallied, infos) if r[0]) and kind[1] and kind[2]
             else:
-                lst = set(cands)
-                ok = all(lst) and len(lst) == len(cands) and kind[2] in lst
-                for c in cards:
-                    if con not in c["votes"]:
-                        continue
-                    kk = len((raw_marks(c, con) or set()) & lst)
-                    ok = ok and (kk == 0 or (tallied(c) == (kk == 1)))
+                ok = all(lst) and len(lst) == len(cands) and kind[2] in lst and \
+                    all(r[2] == 0 or (t == (r[2] == 1)) for t, r in zip(tallied, infos) if r[0])
             if not ok:
                 continue
             runs += 1
-            if kind[0] == "sm" and not any(len((raw_marks(c, con) or set()) & set(cands)) == 1 for c in cards):
+            if kind[0] == "sm" and valid == 0:
                 stats_novalid[0] += 1       # no valid vote at all: the margin must be 0, not 0/0
-            if math.isnan(mg) or abs(mg - (2 * o[key] - 1)) > TOL:
+            if math.isnan(mg) or abs(mg - (2 * o[key] - 1)) > TOL or \
+                    (o["margin"] is not None and not math.isnan(o["margin"]) and abs(mg - o["margin"]) > TOL):
                 flag(f"{'super-majority' if kind[0] == 'sm' else 'plurality/approval'}: margin from the tally differs from 2*mean - 1 over the same cards",
-                     {"margin_from_tally": mg, "two_mean_minus_one": 2 * o[key] - 1, "kind": kind,
-                      "enforce_rules": enforce, "use_style": s["style"]}, f"margin:{kind[0]}")
+                     {"margin_from_tally": mg, "two_mean_minus_one": 2 * o[key] - 1, "margin_from_cvrs": o["margin"],
+                      "kind": kind, "enforce_rules": enforce, "use_style": s["style"]}, f"margin:{kind[0]}")
     return runs
 
 
@@ -733,6 +848,33 @@ def run(ctx, res):
         if w["via_all"]:
             hit("world:make_all_assertions")
         hit(f"cards:{'1' if len(w['cards']) == 1 else '2-8' if len(w['cards']) <= 8 else '9-24' if len(w['cards']) <= 24 else '25-40'}")
+    # ---- awkward shares on short lists (to Coq as well), long lists and tiny margins (oracle only: the exact
+    #      Fraction oracle does not depend on the length)
+    def sized(w, to_coq, tag):
+        nonlocal a_cases, t_cases, m_cases
+        ac, tc, mc, facts = run_world(w, rng)
+        for c, f in zip(ac, facts):
+            res.oracle_runs += oracle_case(c, f, res.oracle_violations)
+        hit(f"sized:{tag}")
+        if to_coq:
+            worlds.append(w)
+            a_cases += ac
+            t_cases += tc
+            m_cases += mc
+        else:
+            res.evaluations += sum(len(c["cards"]) for c in ac)     # implementation evaluations, not Coq cases
+    for _ in range(ctx.n(40, 600)):                # non-round shares close to the achieved share
+        v = rng.choice([3, 5, 5, 7, 9, 10, 11, 20, 25, 33, 40])
+        sized(gen_sized_world(rng, v, "SUPERMAJORITY"), True, "short list, float share next to the achieved share")
+    for _ in range(ctx.n(8, 80)):                  # beyond any plausible block size, split changing along the list
+        n = awkward_n(rng, 1000, 2500)
+        scf = rng.choice(["PLURALITY", "PLURALITY", "APPROVAL", "SUPERMAJORITY"])
+        sized(gen_sized_world(rng, n, scf, tail=rng.randint(200, 600)), False, "1000-2500 cards, last cards favour the loser")
+    for lo, hi, scf, lead in ((100000, 150000, "PLURALITY", rng.choice([1, -1])), (20000, 60000, "PLURALITY", rng.choice([1, 2, 0, -2])),
+                              (20000, 40000, "SUPERMAJORITY", None))[: ctx.n(3, 3)] * ctx.n(1, 3):
+        n = awkward_n(rng, lo, hi)
+        sized(gen_sized_world(rng, n, scf, lead=lead, tail=rng.randint(300, 3000)), False,
+              "20 000-150 000 cards, one- or two-vote margins")
     # ---- exhaustive small profiles (oracle on all; correspondence on all in thorough, a rotating part in quick)
     ea, et, em, efacts = run_exhaustive(rng)
     for c, f in zip(ea, efacts):
@@ -781,7 +923,9 @@ def run(ctx, res):
                 "profiles by weights, by counts, ties, exact thresholds, unanimous, blank; every truthy/falsy mark encoding, "
                 "explicit falsy entries, blank ballots, ballots lacking the contest, write-ins, overvotes, falsy candidate names; "
                 "reported winners true or arbitrary; assertions built directly / via make_all_assertions / twice / by contests "
-                "sharing list objects; plus all multisets of <= 4 cards x 3 candidates; non-trivial = some card carries a truthy "
+                "sharing list objects; short lists with non-round float shares next to the achieved share; oracle-only long lists "
+                "(1000-2500 cards of awkward length with the split changing along the list; 20 000-150 000 cards with one- or "
+                "two-vote leads / minimal super-majorities); plus all multisets of <= 4 cards x 3 candidates; non-trivial = some card carries a truthy "
                 "mark in the contest, distinct by (contest, winners, share, cards)")
     res.samples = [jcase({"con": c["con"], "spec": c["spec"], "cards": c["cards"][:6],
                           "obs": [{k: v for k, v in o.items() if k != "vals"} for o in c["obs"][:2]]}) for c in a_cases[:3]]
